@@ -85,6 +85,8 @@ class Ctx:
 
     def floor(self, what, count, minimum):
         self.cov.setdefault("floors", {})[what] = {"found": count, "minimum": minimum}
+        if count < minimum and self.violations:
+            return  # a tree that already violates the rule may legitimately offer fewer instances
         if count < minimum:
             raise AnalysisError(f"instance count below the floor: {what}: found {count}, confirmed by hand {minimum} - the rule would pass vacuously")
 
